@@ -10,9 +10,9 @@ TXT = {
  "C03": ("TLA+ receive-credit ledger (over-credit at every WINDOW_UPDATE, leak rules at every quiescence) evaluated by TLC on real traces where a scripted peer exhausts stream and connection windows exactly (padded, padding-only, on reset/refused/unaccepted streams)", "4 C03"),
  "C04": ("RFC 9113 5.1/6 reference automaton for emitted frames (H2Wire!OutLife) evaluated by TLC on every frame of every real trace, both roles", "4 C04"),
  "C05": ("TLC exhaustive on the implementation model of the stream store H2Streams (MC_Streams: refused streams never reach the accept queue / the application, open => counted, counted <= limit, every closing path frees the slot) bound to the code by replaying TLC-generated behaviours with step-by-step snapshot comparison; TLA+ concurrency ledger (acknowledged limit, surfaced streams, refusal obligations, send-side limit and slot recycling) evaluated by TLC on real traces, incl. a scripted peer changing MAX_CONCURRENT_STREAMS while streams are open", "4 C05, 11.7"),
- "C06": ("strict executor (a task is polled only if its waker fired) makes a lost wakeup observable; TLA+ rule Quiescent => nothing outstanding evaluated by TLC at every final quiescence of cooperative runs; spec->impl conformance of MC_Send finds connection-task wakeups the model takes for granted", "4 C06"),
+ "C06": ("TLC exhaustive on the implementation model of h2's wake-up protocol H2Tasks (MC_Tasks, 6 slices, both roles: every place that stores a waker, every place that wakes one; invariant: at no quiescent state a task is parked in a call that would now return Ready, the connection task is never parked with work it could do, nothing parked after the connection ended, no waker slot overwritten) bound to the code by replaying TLC-generated behaviours under the STRICT executor (a task is polled only if its waker fired) and comparing the set of parked tasks and every call result at every quiescence; TLA+ rule Quiescent => nothing outstanding evaluated by TLC at every final quiescence of cooperative runs", "4 C06, 11.11"),
  "C07": ("TLA+ termination rule (ended connection leaves no operation pending) evaluated by TLC at final quiescence of real runs ending by GOAWAY, errors, EOF, drops", "4 C07"),
- "C08": ("panic / self-wake budget events are part of the trace alphabet that the TLA+ monitors reject; every simulated poll runs under catch_unwind", "4 C08"),
+ "C08": ("panic / self-wake budget events are part of the trace alphabet that the TLA+ monitors reject; every simulated poll runs under catch_unwind; corpora: all families incl. protocol abuse after legal prefixes, floods, and byte-level mutation of the peer's stream (mutateB: bit flips, replaced / dropped / doubled octets in frame heads, lengths, HPACK and payloads, any fragmentation, both roles); the single-slot asserts of the control path are shown unreachable by TLC on H2Conn (MC_Conn InvAssert), the store asserts on H2Streams (InvAssert)", "4 C08"),
  "C10": ("TLC: RFC 7541 encoder/decoder sync invariant (Hpack/HpackSys) and the implementation-shaped index table model HpackTable (exhaustive); TLC-generated histories replayed on the real Encoder, output decoded by the reference and by h2's Decoder, validated by Trace_Hpack", "4 C10"),
  "C11": ("TLC enumerates every edge of the RFC 7541 decoder graph, all Huffman strings <= 2 octets (3-4 via the TLC-emitted trie) and prefix-integer classes; each case fed to the real Decoder whole and at every split; Trace_Hpack decides", "4 C11"),
  "C12": ("TLC: FrameLayout round-trip and reference vectors, IoChunk staging model (exhaustive schedules of short writes / Pending / WriteZero / read chunking) replayed literally on the real Codec; Trace_Codec decides; connection-level rule C12.out_size on all traces", "4 C12"),
